@@ -104,7 +104,7 @@ PROPS = {
     "C18": _p(["O1", "O2", "K2", "K3", "B7", "T4"],
               "the order array is written only by the identity initialisation over [0,n), the guarded terminator fixed point and an element swap whose loop runs while beg < end, and is inverted as off[pos[i]] = i (O1: necessary for `always a permutation`); every shaping form is, per the Unicode database, the isolated/initial/medial/final presentation form of the same letter, the table is strictly increasing for its bisection, and uc_cshape picks medial/final/initial/base by (join_prev, join_next) for every row x 25 neighbour contexts and never alters non-Arabic characters, by abstract evaluation (K2); direction-mark rows reference existing groups that fit subs[], dir/ctx in range (K3); the loops filling the pattern arrays are bounded by table lengths <= array sizes (B7).",
               "that swap ranges stay inside the line (matcher offsets) and the reversal semantics of runs (behavioural)."),
-    "C12": _p(["L1", "L2", "L3", "L4", "T4"],
+    "C12": _p(["L1", "L2", "L3", "L4", "L5", "T4"],
               "every byte the regex parser treats as an operator (case labels, strchr sets and comparisons of the parser functions) stops the literal classifier's scan, so a pattern with an operator is never a literal (L1); a literal match stores all 2n group slots, groups >= 1 as unset, and the set matcher fills all slots whenever it returns >= 0 (L2); the two word predicates agree on all 255 byte values by abstract evaluation (L3); the word-boundary tests never read before the subject (linear proof at each look-behind read) (L4).",
               "equality of the two matchers' offsets on all lines (behavioural)."),
     "C13": _p(["M2", "M1", "M3", "T4"],
@@ -116,8 +116,8 @@ PROPS = {
     "C16": _p(["T1", "T2", "T3", "T4", "R5"],
               "the lead-byte length classes, masks and shifts of uc_len/uc_code equal RFC 3629's for all 256 lead bytes x continuation combinations, and the continuation-scanning uc_end agrees with the lead-byte length on well-formed input (T3); the regex engine's private uc_len/uc_dec/uc_beg equal the editor's on all well-formed inputs, by abstract evaluation of both ASTs (T2); no constant byte step is taken on line text without ASCII knowledge (T1).",
               "agreement of the helpers built on next/previous over all strings (that is exhaustive execution); T4 (character counts never used as byte offsets) is not implemented."),
-    "C11": _p(["R1", "R2", "R3", "R5", "R7", "R8", "B3", "B6"],
-              "the compiled program fits its allocation: rnode_count and rnode_emit/rnode_emitnorep are abstractly evaluated as cost functions (re_insert = 1, children symbolic) for every node kind and every repetition pair that rnode_atom admits (value ranges of the digit accumulation, rejection tests evaluated per cell) and estimate - emitted has only non-negative coefficients; jmpend pushes <= NREPS; regcomp adds its own 3 (R1); recursion is depth-guarded and 256 frames fit 1 MiB (R2); the private decoders and the bracket scanner never read or step past the terminator, by exhaustive abstract evaluation over all byte strings up to length 4-5 of a representative alphabet (R3); marks beyond the limit are dropped, reads of marks are index-guarded (R7); pattern allocations are exact (B3) and out-arrays large enough (B6).",
+    "C11": _p(["R1", "R10", "R2", "R3", "R5", "R7", "R8", "B3", "B6"],
+              "the compiled program fits its allocation: rnode_count and rnode_emit/rnode_emitnorep are abstractly evaluated as cost functions (re_insert = 1, children symbolic) for every node kind and every repetition pair that rnode_atom admits (value ranges of the digit accumulation, rejection tests evaluated per cell) and estimate - emitted has only non-negative coefficients; jmpend pushes <= NREPS; regcomp adds its own 3 (R1); the estimate is a bounded quantity: every return of rnode_count is proved <= a constant cap, its arithmetic cannot leave int with children at the cap on every admitted cell, and regcomp allocates and emits only when the estimate is strictly below the cap, i.e. no clamp fired (R10); recursion is depth-guarded and 256 frames fit 1 MiB (R2); the private decoders and the bracket scanner never read or step past the terminator, by exhaustive abstract evaluation over all byte strings up to length 4-5 of a representative alphabet (R3); marks beyond the limit are dropped, reads of marks are index-guarded (R7); pattern allocations are exact (B3) and out-arrays large enough (B6).",
               "termination of matching in general; that offsets fall on character boundaries for literal runs rests on the pattern being valid UTF-8."),
     "C15": _p(["S4", "G1", "G2", "G4", "B11"],
               "nothing reachable from a line-command handler or from ex_exec (dispatch edge "
